@@ -22,6 +22,10 @@
 (*   syncmethod     n routines x m calls of a method of one synchronized   *)
 (*                  flavor instance that updates a variable through        *)
 (*                  with-slots: all calls return, the variable is n*m      *)
+(*   rangehandoff   m items in a closed buffered channel taken with range by  *)
+(*                  n consumers in turn, all but the last giving up part   *)
+(*                  way: the lists received, one after the other, are the  *)
+(*                  items pushed, each once, in order                      *)
 (*   withslots      n routines, each inside one with-slots body for all its *)
 (*                  turns, increment the slot in the order a token goes    *)
 (*                  round a ring of channels: the slot is n*m              *)
@@ -48,11 +52,14 @@ SelectFnOK(e) == /\ Len(e.got) = 2
                       /\ Len(e.got[c]) = e.n * e.m
                       /\ {e.got[c][i] : i \in 1..Len(e.got[c])} = {<<p, i>> : p \in ((c - 1) * e.n + 1)..(c * e.n), i \in 0..(e.m - 1)}
                       /\ \A i, j \in 1..Len(e.got[c]) : (i < j /\ e.got[c][i][1] = e.got[c][j][1]) => e.got[c][i][2] < e.got[c][j][2]
+RECURSIVE Cat(_)
+Cat(ss) == IF ss = <<>> THEN <<>> ELSE ss[1] \o Cat(Tail(ss))
 Judge(e) == IF e.st # "ok" THEN "status"
             ELSE CASE e.kind \in {"chan", "select"} -> IF ChanOK(e) THEN "" ELSE "items"
                    [] e.kind = "selectfn" -> IF SelectFnOK(e) THEN "" ELSE "items"
                    [] e.kind = "mutex" -> IF e.x = e.n * e.m THEN "" ELSE "counter"
                    [] e.kind = "syncmethod" -> IF e.x = e.n * e.m THEN "" ELSE "counter"
+                   [] e.kind = "rangehandoff" -> IF Cat(e.got) = [i \in 1..e.m |-> <<1, i - 1>>] THEN "" ELSE "items"
                    [] e.kind = "withslots" -> IF e.x = e.n * e.m THEN "" ELSE "counter"
                    [] e.kind = "mutexnest" -> IF e.x = 1 + 2 * e.n * e.m THEN "" ELSE "counter"
                    [] e.kind = "syncinst" -> IF Len(e.slots) = e.n /\ \A k \in 1..e.n : e.slots[k] = e.m THEN "" ELSE "slots"
